@@ -417,6 +417,18 @@ def handlePool (ws : List String) : Option String := do
 partial def poolRunOp (s : PoolConc.State) (t : Nat) (idle : List PoolConc.Label) (first : Bool) (acc : List String) :
     PoolConc.State × List PoolConc.Label × List String :=
   if !first && (s.th t).pc == .idle then (s, idle, acc) else
+  -- the creator's failure is an input too: taken when the next recorded answer is `createFail` at the creation point
+  let failNow := (match (s.th t).pc, idle with
+    | .getCreate _, .createFail :: _ => true
+    | _, _ => false)
+  if failNow then
+    (match PoolConc.stepE s t .createFail with
+     | some (s', evs) => poolRunOp s' t idle.tail false (acc ++ evs.map PoolConc.Event.render)
+     | none => (s, idle, acc ++ [s!"stuck {t}"])) else
+  -- a recorded successful creation (`k`, parsed as `tau`) is consumed at the creation point
+  let idle := (match (s.th t).pc, idle with
+    | .getCreate _, .tau :: rest => rest
+    | _, _ => idle)
   match PoolConc.stepE s t .tau with
   | some (s', evs) => poolRunOp s' t idle false (acc ++ evs.map PoolConc.Event.render)
   | none =>
@@ -434,7 +446,7 @@ def handlePoolSeq (ws : List String) : Option String := do
   let order ← natList (← arg ws "order")
   let idl ← arg ws "idle"
   let parseLbl : String → Option PoolConc.Label := fun x =>
-    if x = "e" then some .expired else (if x = "f" then some .fresh else none)
+    if x = "e" then some .expired else (if x = "f" then some .fresh else (if x = "c" then some .createFail else (if x = "k" then some .tau else none)))
   let idle ← (if idl = "-" then some [] else (idl.splitOn ",").mapM parseLbl)
   let (_, _, out) := order.foldl (fun (acc : PoolConc.State × List PoolConc.Label × List String) t =>
     let (s, i, o) := acc
@@ -461,7 +473,7 @@ def poolValidate (s : PoolConc.State) (owed : List (Nat × List String)) : List 
           let rs := evs.map PoolConc.Event.render
           if rs.head? = some ev then some (s', rs.drop 1) else none
         | none => none
-      match (tryL .tau).orElse (fun _ => (tryL .fresh).orElse (fun _ => tryL .expired)) with
+      match (tryL .tau).orElse (fun _ => (tryL .fresh).orElse (fun _ => (tryL .expired).orElse (fun _ => tryL .createFail))) with
       | some (s', more) => poolValidate s' ((t, more) :: owed.filter (·.1 ≠ t)) rest (n + 1)
       | none => s!"ok INVALID at {n}: thread {t} did `{ev}`, which no enabled model step of that thread produces"
 
